@@ -14,6 +14,7 @@ import (
 	"reflect"
 	"strings"
 
+	"github.com/google/go-containerregistry/pkg/name"
 	rbacv1 "k8s.io/api/rbac/v1"
 	kubectlrbac "k8s.io/kubectl/pkg/util/rbac"
 
@@ -463,6 +464,35 @@ func c18Granular(reqs []c18PRule) int {
 	return n
 }
 
+// c18SameOrg is the monitor's own reading of "from the same registry and organisation",
+// written against the property and not against OrgDiffer: both references must parse; the
+// registries (host AND port, after defaulting) must be the same string; the organisation is
+// the FIRST element of the repository path - whatever is nested below it (org/team/package)
+// belongs to that organisation - and must be equal. A repository that is a single path element
+// has no organisation segment of its own: its first (only) element is the repository itself, so
+// two DIFFERENT root-level packages of one registry share no organisation; only references to
+// that very repository (other tags / digests) - or to paths nested below its name - do.
+func c18SameOrg(a, b string) bool {
+	ra, err := name.ParseReference(a, name.WithDefaultRegistry(c18DefaultRegistry))
+	if err != nil {
+		return false
+	}
+	rb, err := name.ParseReference(b, name.WithDefaultRegistry(c18DefaultRegistry))
+	if err != nil {
+		return false
+	}
+	if ra.Context().RegistryStr() != rb.Context().RegistryStr() {
+		return false
+	}
+	first := func(p string) string {
+		if i := strings.Index(p, "/"); i >= 0 {
+			return p[:i]
+		}
+		return p
+	}
+	return first(ra.Context().RepositoryStr()) == first(rb.Context().RepositoryStr())
+}
+
 func c18MonRoundReconcile(s c18Scn, rec *c18RoundRec) []Mon {
 	var mons []Mon
 	prefix := "crossplane:provider:" + rec.Target + ":"
@@ -559,7 +589,7 @@ func c18MonRoundReconcile(s c18Scn, rec *c18RoundRec) []Mon {
 					if m.UID == t.UID {
 						continue
 					}
-					if t.Family != "" && m.Family == t.Family && t.Org != nil && m.Org != nil && *t.Org == *m.Org {
+					if t.Family != "" && m.Family == t.Family && c18SameOrg(t.Pkg, m.Pkg) {
 						for _, r := range c18CRDs(m.Refs) {
 							allowed[r] = true
 						}
